@@ -1,5 +1,5 @@
 \* edge emission, grid/cache focus (thorough)
-CONSTANTS N = 3  Par = {"p", "q"}  NVal = 2  NGrid = 3  MaxDepth = 3  MaxLevel = 6
+CONSTANTS N = 3  Par = {"p", "q"}  NVal = 2  NGrid = 2  MaxDepth = 3  MaxLevel = 6
           GridSlot = "stack"  PickleSerial = "fresh"
 CONSTANTS Keeps <- KeepsNone  Acts <- ActsGrid  Parent0 <- ParentB  Cls0 <- ClsB
           ParOf <- McParOf  GridCls <- McGridCls  MatCls <- McMatCls
